@@ -530,8 +530,65 @@ def cases(draw, pair):
     return c
 
 
+def enum_table(tier):
+    """Every combination of the DISCRETE choices of every pair (fault class x entry point x
+    forecaster x variant), on two fixed contexts: the table itself is finite, only the
+    otherwise-valid context is sampled (by the generated sub-checks)."""
+    import itertools
+
+    contexts = [
+        {"n": 20, "values": [7.0 + 1.5 * ((j * 7) % 5) + 0.25 * j for j in range(20)], "start": 3, "index_kind": "range", "fh": [1, 2]},
+        {"n": 17, "values": [40.0 - 0.75 * j + 2.0 * ((j * 3) % 4) for j in range(17)], "start": -6, "index_kind": "int64", "fh": [2, 4]},
+    ]
+    fc = sorted(FORECASTERS)
+    table = []
+    for w, f, fl in itertools.product(["fit", "update", "evaluate", "tuner", "update_predict", "update_predict_single", "splitter"], fc,
+                                      ["unsorted", "unsorted_middle", "reversed_range", "empty", "dataframe", "ndarray"]):
+        if w in ("evaluate", "tuner", "splitter") and f != fc[0]:
+            continue
+        table.append({"pair": "series_fault", "where": w, "forecaster": f, "fault": fl})
+    for f, v in itertools.product(["naive", "recursive", "direct", "multioutput", "ensemble", "multiplex", "expsmooth"],
+                                  ["fit", "fit_shorter", "fit_longer", "fit_leading", "update", "evaluate"]):
+        table.append({"pair": "x_index", "forecaster": f, "x_variant": v})
+    for w, fl, dk in itertools.product(["constructor", "fit", "predict", "splitter", "tts"],
+                                       ["duplicate", "empty", "fractional", "string", "float_scalar", "tuple", "set"],
+                                       ["list", "array", "index_sorted", "index_unsorted"]):
+        if fl != "duplicate" and dk != "list":
+            continue
+        for f in (fc if w in ("fit", "predict") else fc[:1]):
+            table.append({"pair": "fh_fault", "where": w, "forecaster": f, "fault": fl, "dup_kind": dk})
+    for f in fc:
+        table.append({"pair": "missing_fh", "forecaster": f})
+    for f, v, at in itertools.product(FH_DEPENDENT, range(5), ["predict", "update_predict_single"]):
+        table.append({"pair": "fh_differs", "forecaster": f, "variant": v, "at": at})
+    for w, prm, fl, stg, sr in itertools.product(["sliding", "expanding", "cutoff", "naive", "reduce", "deseasonalizer"],
+                                                ["window_length", "step_length", "sp"], sorted(BAD_INT), ["last", "mean"],
+                                                ["direct", "recursive", "multioutput", "dirrec"]):
+        if w != "reduce" and sr != "direct":
+            continue
+        if w != "naive" and stg != "last":
+            continue
+        table.append({"pair": "bad_int_param", "where": w, "param": prm, "fault": fl, "strategy": stg, "strategy_r": sr})
+    for w, ex, ws, sr in itertools.product(["sliding", "sliding_initial", "expanding", "cutoff", "naive", "reduce"], range(4), [1, 3],
+                                           ["direct", "recursive", "multioutput", "dirrec"]):
+        if w != "reduce" and sr != "direct":
+            continue
+        table.append({"pair": "window_does_not_fit", "where": w, "excess": ex, "wl_small": ws, "strategy_r": sr})
+    for w, b in itertools.product(["naive", "reduction_strategy", "reduction_scitype", "evaluate", "aggfunc"],
+                                  ["", "Last", "mean ", "nope", "refit2", "avg", "MEAN"]):
+        table.append({"pair": "unknown_name", "where": w, "bad_name": b})
+    for k, fl in itertools.product(["ensemble", "stack", "multiplex", "pipeline"],
+                                   ["duplicate_names", "dunder_name", "name_is_ctor_arg", "empty_list", "non_forecaster_member",
+                                    "non_transformer_step", "last_step_not_forecaster"]):
+        table.append({"pair": "composite", "composite": k, "fault": fl})
+    for ctx_ in contexts:
+        for row in table:
+            yield dict(ctx_, **row)
+
+
 def subchecks():
-    return [SubCheck(p, oracle, cases(p), quick=400, thorough=4000, shards_quick=2, shards_thorough=4) for p in PAIRS]
+    return [SubCheck("whole_table_fixed_context", oracle, enumerate_cases=enum_table, shards_quick=8, shards_thorough=16, exhaustive=True)] + [
+        SubCheck(p, oracle, cases(p), quick=400, thorough=4000, shards_quick=2, shards_thorough=4) for p in PAIRS]
 
 
 SELECTORS = {}
